@@ -8,6 +8,9 @@
    asked as it is AT THAT MOMENT ([deref_dict] with the store of that tick).  The store is part of the STATE ([hstate]);
    the list [muts] says after which tick which in-place operations (Tonal/Held.v [hop]) are performed on the held objects.
    Assignments to timeline.defaults between ticks ([changes]) are kept as in Sched/EventCfg.v.
+   The same store carries the REGISTRY of scale names (Scale.dict): a key given by name ("C minor", "D myscale") is looked
+   up in the registry as it is when the event is due ([key_of_name_reg]), so scales, weighted scales, copies and keys
+   constructed between two events ([muts]: HScale ..., HScaleCopy ..., HKeyNamed ...) are part of the history.
    No proofs here (Sched/EventHeldProofs.v). *)
 From Isobar Require Import Base.Prelude Tonal.Key Tonal.Held Generated.Tables Generated.TablesC03 Sched.Event Sched.EventCfg.
 From Coq Require Import String Ascii QArith.
@@ -30,7 +33,41 @@ Definition deref_val (st : store) (v : val) : val :=
   | VPat l => VPat (map (deref1 st) l)
   | _ => deref1 st v
   end.
-Definition deref_dict (st : store) (d : dict) : dict := map (fun kv => (fst kv, deref_val st (snd kv))) d.
+
+(* a key given BY NAME: "key = event_values[EVENT_KEY]; if isinstance(key, str): key = Key(key)" (event.py) and
+   Key.__init__ / Scale.byname (key.py, scale.py) look the scale name up in Scale.dict AS IT IS when the event is
+   resolved - the registry of the store (Tonal/Held.v st_reg), not the table of the freshly imported library that
+   Sched/Event.v's scale_byname knows *)
+Definition scale_byname_reg (st : store) (name : string) : outcome scale :=
+  match reg_scale st name with
+  | Some s => Ok s
+  | None => Raise UnknownScaleName
+  end.
+Definition key_of_name_reg (st : store) (name : string) : outcome key :=
+  let cs := list_ascii_of_string name in
+  match count_spaces cs with
+  | O => do t <- note_of_name name; do s <- scale_byname_reg st "major"; Ok (mkKey t s)
+  | S O => let '(a, b) := split_space cs [] in
+           do t <- note_of_name (string_of_list_ascii a);
+           do s <- scale_byname_reg st (string_of_list_ascii b);
+           Ok (mkKey t s)
+  | _ => Raise ValueError
+  end.
+(* the value of the `key` entry read in the store st: a name that denotes a key there is that key (a string that denotes
+   none stays a string: Event.__init__ raises for it if and when it needs the key, as Sched/Event.v describes) *)
+Definition key1 (st : store) (v : val) : val :=
+  match v with
+  | VStr s => match key_of_name_reg st s with Ok k => VKey k | _ => v end
+  | _ => deref1 st v
+  end.
+Definition key_val (st : store) (v : val) : val :=
+  match v with
+  | VPat l => VPat (map (key1 st) l)
+  | _ => key1 st v
+  end.
+Definition deref_entry (st : store) (kv : string * val) : string * val :=
+  (fst kv, if String.eqb (fst kv) K_KEY then key_val st (snd kv) else deref_val st (snd kv)).
+Definition deref_dict (st : store) (d : dict) : dict := map (deref_entry st) d.
 
 (* (t, ops): the in-place operations ops are performed on the held objects after tick t and before tick t + 1 *)
 Definition muts := list (Z * list hop).
@@ -117,4 +154,4 @@ Definition held_agrees (N : positive) (muted : bool) (nticks : nat) (defs0 : dic
 Definition deref_cstate (st : store) (c : cstate) : cstate :=
   mkC (c_next c) (c_pend c) (map (deref_dict st) (c_stream c)) (deref_dict st (c_defs c)).
 Definition deref_changes (st : store) (ch : changes) : changes :=
-  map (fun c => (fst c, map (fun kv => (fst kv, deref_val st (snd kv))) (snd c))) ch.
+  map (fun c => (fst c, map (deref_entry st) (snd c))) ch.
